@@ -263,6 +263,9 @@ func (r *Renderer) constOK(t *Type) bool {
 	return true
 }
 
+// ConstOK is the exported form of constOK.
+func (r *Renderer) ConstOK(t *Type) bool { return r.constOK(t) }
+
 // itemExpr renders a set argument that is an item.
 func (f *gofile) itemExpr(i int) string {
 	it := &f.r.S.Items[i]
